@@ -170,6 +170,9 @@ def r161(ctx, fx, rid_prefix="R16.1"):
         if lib.pm(p, "Evaluator::interpolate"):
             a = lib.hargs(n)
             return len(a) >= 3 and lib.hlit(a[2]) is True
+        # analysis-only walkers (record a usage for every identifier without evaluating; harvested by CodegenContext::track_usages)
+        if lib.pm(p, "Evaluator::track_identifiers") or lib.pm(p, "Evaluator::track_interpolated_identifiers"):
+            return True
         return False
 
     def emit_sink(n):
